@@ -204,6 +204,26 @@ func runC10(t testing.TB, c C10Case) (key, what string, sites map[string]int) {
 				return "HARNESS", desc + ": " + err.Error(), sites
 			}
 			wants = append(wants, c10Site{"client-address-with-zone", "[" + zone + "] "}, c10Site{"file-requested", "?" + r.Text})
+			// and a broker notice about the same client address
+			zid := "z" + r.Text
+			if zic, err := OpenInAt(net.JoinHostPort(zone, s.Port), "/i/"+url.PathEscape(zid), host); err == nil {
+				ok := s.WaitLines(Wait, func(ls []Line) bool {
+					for _, l := range ls {
+						if l.Seq > from && strings.Contains(l.CL.Line, "connected") && strings.Contains(l.CL.Line, "["+zone+"] ") {
+							return true
+						}
+					}
+					return false
+				})
+				zic.Close()
+				s.WaitLine(Wait, from, "Shell is gone")
+				if !ok {
+					wants = append(wants, c10Site{"broker-notice-with-zone-address", "[" + zone + "] Input connected"})
+				} else {
+					sites["broker-notice-with-zone-address"]++
+				}
+				wants = append(wants, c10Site{"broker-connected", zid})
+			}
 		}
 		// collect this request's notices
 		ok := s.WaitLines(Wait, func(ls []Line) bool {
